@@ -568,7 +568,7 @@ pub mod verif {
         let mut state = ScanState::new(1);
         state.dc_pred[0] = prev_dc;
         process_sequential(&mut state, 0, &dc_table, &ac_table, dc, ac, extra_zero_runs)?;
-        let mut out = Vec::new();
+        let mut out = Vec::with_capacity(64);
         state.flush_bit_writer(None, &mut out)?;
         Ok(out)
     }
